@@ -312,6 +312,10 @@ class OraclesMixin:
             digest = sha(lib_names)
         if "O19" in self.fam:
             digest = sha((digest, self.sql_oracle(pt, step)))
+            # the inputs of the step are unchanged tables: their SQL text is what it was (O19.2)
+            for inp in inputs or ():
+                if inp is not pt and inp.id in self.tables:
+                    self.sql_oracle(inp, step)
         if op == "join" and "O6" in self.fam:
             self.join_rows_oracle(pt, step, inputs)
         elif op == "join" and "O16" in self.fam and (inputs[0].m.same_as == inputs[1].id or inputs[1].m.same_as == inputs[0].id or step.get("selfjoin")):
